@@ -2,6 +2,8 @@
 //! stdin, runs the *real* calloop built from /repo's working tree (with `--cfg calloop_verif`),
 //! and prints one observation line per effect on stdout.
 mod core;
+mod pingsched;
+mod sched;
 mod tok;
 mod transient;
 
@@ -10,6 +12,7 @@ fn main() {
     let mode = args.get(1).map(|s| s.as_str()).unwrap_or("");
     let code = match mode {
         "tok" => tok::run(),
+        "pingsched" => pingsched::run(),
         "core" => core::run(&args[2..]),
         "transient" => transient::run(),
         _ => {
